@@ -30,6 +30,12 @@ impl Reader {
     }
 
     pub(super) fn append_block_to_chain(&self, col: &str, block: Block) -> io::Result<()> {
+        // A block that was sealed without ever holding an entry has nothing to read and is not
+        // found by recovery either; publishing it would make in-memory chain positions (which
+        // persisted cursors refer to) differ from the positions after a restart.
+        if block.used == 0 {
+            return Ok(());
+        }
         // fast path: try read-lock map and use per-column lock
         if let Some(info_arc) = {
             let map = self.data.read().map_err(|_| {
